@@ -664,6 +664,54 @@ class World:
             task.cancel()
         return r
 
+    # ---- AVDTP stream life cycle: every frame well-formed, the ORDER is the peer's choice
+    def avdtp_configuration(self):
+        from bumble import avdtp
+        return [avdtp.ServiceCapabilities(avdtp.AVDTP_MEDIA_TRANSPORT_SERVICE_CATEGORY), _sbc_caps()]
+
+    async def avdtp_script(self, steps):
+        """Run the steps with device 0's AVDTP client and L2CAP stack against the sink endpoint
+        (SEID 1) of device 1.  -> list of (step, outcome)."""
+        from bumble import avdtp, l2cap
+        peer, conn = self.avdtp_client, self.conn['br'][0]
+        out = []
+        for step in steps:
+            if step == 'configure':
+                r = await bounded(peer.set_configuration(1, 1, self.avdtp_configuration()))
+            elif step == 'open':
+                r = await bounded(peer.open(1))
+            elif step == 'transport':
+                r = await bounded(conn.create_l2cap_channel(spec=l2cap.ClassicChannelSpec(psm=avdtp.AVDTP_PSM)))
+                if r[0] == 'ok':
+                    self.avdtp_transport = r[1]
+                    r = ('ok', None)
+            elif step == 'start':
+                r = await bounded(peer.start([1]))
+            elif step == 'suspend':
+                r = await bounded(peer.suspend([1]))
+            elif step == 'drop':
+                r = await bounded(self.avdtp_transport.disconnect())
+            elif step == 'close':
+                r = await bounded(peer.close(1))
+            elif step == 'abort':
+                r = await bounded(peer.abort(1))
+            else:
+                raise KeyError(step)
+            await idle(REF_ROUNDS)
+            out.append((step, r[0] if r[0] != 'error' else r[1]))
+        return out
+
+    async def ref_avdtp_stream(self):
+        """After a teardown the endpoint must be free again: not in use, and Set Configuration +
+        Open on the same SEID are accepted."""
+        endpoint = self.avdtp_servers[0].local_endpoints[0]
+        if endpoint.in_use:
+            return f'the endpoint is still in use after the teardown (stream state {endpoint.stream.state.name if endpoint.stream else None})'
+        r = await self.avdtp_script(['configure', 'open'])
+        if [x[1] for x in r] != ['ok', 'ok']:
+            return f'Set Configuration + Open on the released endpoint -> {r}'
+        return None
+
     async def ref_pair(self):
         r = await bounded(self.conn['le'][0].pair(), 4000)
         if r != ('ok', None):
@@ -701,6 +749,8 @@ class World:
                 bad = await self.ref_pair()
             elif name == 'hci.cmd':
                 bad = await self.ref_hci_command()
+            elif name == 'avdtp.stream':
+                bad = await self.ref_avdtp_stream()
             else:
                 raise KeyError(name)
             if bad:
@@ -822,6 +872,8 @@ World.rfc_frame = _rfc_frame
 
 
 def op_len(op):
+    if op['k'] == 'avdtp':
+        return 16 * len(op['steps'])
     if op['k'] == 'tfeed':
         return sum(len(c) for c in op['chunks']) // 2
     if op['k'] == 'expect':
@@ -836,6 +888,8 @@ def op_len(op):
 def op_entry(op):
     """Stable name of the entry point / channel an op targets (part of the signature)."""
     k = op['k']
+    if k == 'avdtp':
+        return 'avdtp.stream-teardown'
     if k == 'tfeed':
         return f"transport.{op['kind']}"
     if k == 'mid':
@@ -1584,6 +1638,13 @@ async def run_case(w, case):
                     if len(got) > op['max']:
                         verdict = 'reference request failed (credit discipline)'
                         expect_detail = (f"{len(got)} PDUs sent on CID 0x{op['cid']:04x} with {op['max']} credits granted")
+                    continue
+                if op['k'] == 'avdtp':
+                    r = await w.avdtp_script(op['steps'])
+                    excs.extend(x[1] for x in r if x[1] not in ('ok',))
+                    if any(x[1] == 'pending' for x in r):
+                        verdict = 'reference request failed (AVDTP step never answered)'
+                        expect_detail = f'{r}'
                     continue
                 if op['k'] == 'mid':
                     w.mid_excs = []
@@ -2790,6 +2851,34 @@ def transport_cases(rng, quick=True, n_random=0):
     return out
 
 
+def avdtp_teardown_cases():
+    """Out-of-order (but frame-by-frame well-formed) teardowns of an established AVDTP stream,
+    driven by the real client stack of device 0: the media transport channel released before
+    Close / before Abort / Close then Abort, from OPEN and from STREAMING, plus the in-order
+    teardowns as controls.  Afterwards the endpoint must be free: Set Configuration + Open on
+    the same SEID succeed."""
+    up = ['configure', 'open', 'transport']
+    seqs = {
+        'open-drop-close': up + ['drop', 'close'],
+        'open-drop-abort': up + ['drop', 'abort'],
+        'open-drop-close-abort': up + ['drop', 'close', 'abort'],
+        'streaming-drop-close': up + ['start', 'drop', 'close'],
+        'streaming-drop-abort': up + ['start', 'drop', 'abort'],
+        'streaming-drop-suspend-close': up + ['start', 'drop', 'suspend', 'close'],
+        'open-close-drop': up + ['close', 'drop'],
+        'open-abort-drop': up + ['abort', 'drop'],
+        'streaming-close-drop': up + ['start', 'close', 'drop'],
+        'configured-abort': ['configure', 'abort'],
+        'open-no-transport-close': ['configure', 'open', 'close'],
+        'open-no-transport-abort': ['configure', 'open', 'abort'],
+        'close-twice': up + ['close', 'close', 'drop'],
+        'abort-idle': ['abort'],
+    }
+    return [{'name': 'avdtp-teardown-' + name, 'target': 'avdtp-stream', 'src': 'teardown', 'terminal': True,
+             'refs': ['conn', 'avdtp.stream', 'avdtp', 'echo.br'], 'ops': [{'k': 'avdtp', 'dev': 1, 'steps': steps}]}
+            for name, steps in seqs.items()]
+
+
 def load_corpus():
     out = []
     if os.path.isdir(CORPUS_DIR):
@@ -3005,7 +3094,8 @@ def run(ctx):
     ctx.extra['recorded_hci_packets'] = [len(x) for x in seeds['hci']]
     cases = (load_corpus() + directed_cases() + stateful_cases(ctx.rng.fork('stateful'), ctx.quick())
              + mid_cases(ctx.rng.fork('mid'), ctx.quick())
-             + transport_cases(ctx.rng.fork('transport'), ctx.quick(), ctx.n(6, 150)))
+             + transport_cases(ctx.rng.fork('transport'), ctx.quick(), ctx.n(6, 150))
+             + avdtp_teardown_cases())
     gen = Gen(ctx.rng.fork('campaign'), seeds)
     for _ in range(ctx.n(1000, 30000)):
         cases.append(gen.case())
